@@ -117,3 +117,7 @@ func verifC20Lemma(cMax int) {
 }
 func VerifC20Lemma99()  { verifC20Lemma(99) }
 func VerifC20Lemma267() { verifC20Lemma(267) }
+
+// 12..13 chunks: the first payloads whose chunk numbers include "11" and "12" (two-digit numbers made of the digits
+// that also occur in the prefixes)
+func VerifC20Chunks13() { verifC20Chunks(12, 13) }
